@@ -14,7 +14,8 @@ ALL_NAMES = ['A', 'B', 'C', 'D', 'Tz', 'D3', 'G', 'Pr', 'P', 'Pk', 'Pw', 'Mv', '
              'R1', 'R2', 'R3', 'Hw', 'Pl', 'R1i', 'Hwi', 'Pli', 'R1v', 'Hwv', 'Plv', 'A2', 'AI', 'BI', 'DI',
              'TzI', 'GT', 'CT', 'PrT', 'PT', 'PkT', 'PwT', 'MvT', 'RsT', 'RvT', 'BdT', 'R1T', 'R2T', 'R3T',
              'R1iT', 'R1vT', 'PlT', 'I2v', 'I3v', 'Iqu', 'Im', 'H2', 'Hh', 'H3', 'Hq', 'Hm', 'H6',
-             'Dl', 'DlI', 'Prl', 'PrlT', 'BDl', 'BDi', 'BRl', 'BCl', 'Il', 'Hl', 'Mc', 'McT', 'Mn']
+             'Dl', 'DlI', 'Prl', 'PrlT', 'BDl', 'BDi', 'BRl', 'BCl', 'Il', 'Hl', 'Mc', 'McT', 'Mn',
+             'Mp', 'Mq', 'MpT', 'Ma', 'Mb', 'MaT']
 
 # a smaller alphabet for longer chains: one representative per pattern of C07 plus contexts
 CORE_NAMES = ['A', 'AI', 'D', 'DI', 'H2', 'Hh', 'I2v', 'G', 'GT', 'Pr', 'PrT', 'P', 'PT', 'Pk', 'PkT', 'Tz', 'H3',
@@ -241,10 +242,11 @@ def run(prop: str, tier: str, seed: int) -> int:
     if tier == 'quick':
         # every chain in which the specification's scan fires a rule is replayed; the others and the
         # nested terms are sampled, stratified by the set of operand kinds / by template and container
-        firing = [c for c in cases if c.get('simulated') or c.get('fired', 0) >= 2 or (c.get('fired', 0) == 1 and len(c['names']) <= 3)]
+        firing = [c for c in cases if c.get('simulated') or c.get('fired', 0) >= 2 or (c.get('fired', 0) == 1 and len(c['names']) <= 3)
+                  or ('fired' in c and len(c['names']) <= 2)]          # and every chain of one or two operators
         one4 = [c for c in cases if not c.get('simulated') and c.get('fired', 0) == 1 and len(c['names']) > 3]
         firing += rng.sample(one4, min(len(one4), 300))
-        quiet = [c for c in cases if 'fired' in c and c['fired'] == 0 and not c.get('simulated')]
+        quiet = [c for c in cases if 'fired' in c and c['fired'] == 0 and not c.get('simulated') and len(c['names']) > 2]
         nestd = [c for c in cases if 'fired' not in c]
         q, s1 = fx.stratified_sample(quiet, lambda c: '/'.join(sorted(set(_kinds(c['term'])))), 1, seed)
         if len(q) > 300:
